@@ -143,6 +143,8 @@ def readback(t, x):
         return {"f": [readback(ft, getattr(x, fname)) for fname, ft in t["fields"]]}
     if kk == "array":
         shape = [int(s) for s in x._shape]
+        if any(d < 0 for d in shape) or int(np.prod(shape, dtype=object)) > 1000000:
+            raise ValueError("array reports shape %s" % shape)       # a damaged header: do not walk it
         items = []
         for idx in itertools.product(*[range(s) for s in shape]):
             items.append(readback(t["item"], x[idx if len(idx) > 1 else idx[0]]))
